@@ -609,6 +609,75 @@ def make_solution(spec, seed, origin):
     return sess.h, sol
 
 
+_TASK_FIELDS = (
+    "type", "start", "end", "duration", "release_date", "due_date", "due_date_is_deadline", "optional", "scheduled",
+    "work_amount", "priority",
+)
+
+
+def _enc_time(x):
+    if x is None:
+        return None
+    if isinstance(x, datetime):
+        return {"datetime": x.isoformat()}
+    if isinstance(x, timedelta):
+        return {"timedelta_us": (x.days * 86400 + x.seconds) * 1000000 + x.microseconds}
+    raise TypeError(f"unexpected time value {x!r}")
+
+
+def _dec_time(x):
+    if x is None:
+        return None
+    if "datetime" in x:
+        return datetime.fromisoformat(x["datetime"])
+    return timedelta(microseconds=x["timedelta_us"])
+
+
+def dump_solution(sol):
+    """plain-JSON copy of a solution object, read attribute by attribute (no exporter involved)"""
+    d = {"horizon": sol.horizon, "tasks": [], "resources": [], "buffers": [], "indicators": [[k, v] for k, v in sol.indicators.items()]}
+    for n, t in sol.tasks.items():
+        rec = {"name": n, "assigned_resources": list(t.assigned_resources)}
+        for f in _TASK_FIELDS:
+            rec[f] = getattr(t, f)
+        for f in ("start_time", "end_time", "duration_time"):
+            rec[f] = _enc_time(getattr(t, f))
+        d["tasks"].append(rec)
+    for n, r in sol.resources.items():
+        d["resources"].append({"name": n, "type": r.type, "assignments": [list(a) for a in r.assignments]})
+    for n, b in sol.buffers.items():
+        d["buffers"].append({"name": n, "level": list(b.level), "level_change_times": list(b.level_change_times)})
+    return d
+
+
+def load_solution(problem, d):
+    """the inverse of dump_solution, through the public solution classes (as build_solution does)"""
+    sm = __import__("processscheduler.solution", fromlist=["x"])
+    sol = sm.SchedulingSolution(problem=problem)
+    sol.horizon = d["horizon"]
+    for rec in d["tasks"]:
+        t = sm.TaskSolution(name=rec["name"])
+        for f in _TASK_FIELDS:
+            setattr(t, f, rec[f])
+        for f in ("start_time", "end_time", "duration_time"):
+            setattr(t, f, _dec_time(rec[f]))
+        t.assigned_resources = list(rec["assigned_resources"])
+        sol.add_task_solution(t)
+    for rec in d["resources"]:
+        r = sm.ResourceSolution(name=rec["name"])
+        r.type = rec["type"]
+        r.assignments = [tuple(a) for a in rec["assignments"]]
+        sol.add_resource_solution(r)
+    for rec in d["buffers"]:
+        b = sm.BufferSolution(name=rec["name"])
+        b.level = list(rec["level"])
+        b.level_change_times = list(rec["level_change_times"])
+        sol.add_buffer_solution(b)
+    for k, v in d["indicators"]:
+        sol.add_indicator_solution(k, v)
+    return sol
+
+
 SOLUTION_CHECKS = {
     "C16.json": lambda sol, h, tmp: check_json(sol, h.problem),
     "C16.csv": lambda sol, h, tmp: check_csv(sol, tmp),
@@ -662,7 +731,7 @@ def _judge_solution(ctx, spec, seed, origin, h, sol):
             ctx.event(f"finding:{check}:{rule}")
             ctx.violation(
                 {"check": check, "rule": rule, "spec": spec, "seed": seed, "origin": origin, "pins": origin.get("pins"),
-                 "observed": obs, "signature": dict({"rule": rule}, **sig)}
+                 "solution": dump_solution(sol), "observed": obs, "signature": dict({"rule": rule}, **sig)}
             )
     nt = len(sol.tasks) >= 2 and (bool(sol.resources) or bool(sol.buffers) or bool(sol.indicators))
     if nt:
@@ -1099,9 +1168,14 @@ def replay(record):
     check, rule = record.get("check"), record.get("rule")
     spec, seed = record["spec"], record.get("seed", 0)
     if check in SOLUTION_CHECKS:
-        h, sol = make_solution(spec, seed, record["origin"])
-        if h is None:
-            return False, f"no solution to export any more ({sol})"
+        if record.get("solution") is not None:
+            # z3 may return another model in another process: the exported solution itself is recorded
+            h = B.build(spec, seed, solver_kwargs=(record.get("origin") or {}).get("solver_kwargs"))
+            sol = load_solution(h.problem, record["solution"])
+        else:
+            h, sol = make_solution(spec, seed, record["origin"])
+            if h is None:
+                return False, f"no solution to export any more ({sol})"
         findings = run_solution_check(check, sol, h)
     elif check == "C16.smt2":
         findings = check_smt2(spec, seed, record.get("solver_kwargs"), record.get("pins") or [])
